@@ -184,6 +184,26 @@ def eq_table(ctx, model, ci, fn, cons):
                f'{cons} [{label}]: a == b gives {r1!r}, b == a gives {r2!r}' + (f', expected {want}' if want is not None else '') +
                ': equality must be a boolean, never raise, be the same in both directions and hold for identical objects',
                file=ci.file, line=fn.lineno)
+    # transitivity over all the objects built above
+    objs = []
+    for label, a, b, want in cases:
+        for o in (a, b):
+            if isinstance(o, Obj) and o.kind == ci.name and not any(o is x for _, x in objs):
+                objs.append((label, o))
+    objs = objs[:9]
+    eqm = {}
+    for i, (_, a) in enumerate(objs):
+        for j, (_, b) in enumerate(objs):
+            eqm[(i, j)] = run(a, b)
+    bad = None
+    for i in range(len(objs)):
+        for j in range(len(objs)):
+            for k_ in range(len(objs)):
+                if eqm[(i, j)] is True and eqm[(j, k_)] is True and eqm[(i, k_)] is not True and bad is None:
+                    bad = (objs[i][0], objs[j][0], objs[k_][0])
+    ctx.ob('C18.eq-symmetric', f'{cons}:transitive', bad is None,
+           f'{cons} is not transitive: the objects of the cases {bad} satisfy a == b and b == c but not a == c (e.g. a comparison that stops at the shorter of two lists '
+           f'makes every plan equal to its prefixes)' if bad else '', file=ci.file, line=fn.lineno)
     ctx.count('eq_tables')
     return True
 
